@@ -27,15 +27,15 @@ try:
     extra = "-race" if "race" in open(os.path.join(src, "README.md")).read().lower() and pid == "C08" else ""
     democmd = f"go test {extra} -vet=off -count=1 -run '{runre}' ./{demodir}/"
     # (c) demo on clean tree
-    shutil.copy(os.path.join(src, demo), os.path.join(wt, demodir, "zz_seeded_demo_test.go"))
+    shutil.copy(os.path.join(src, demo), os.path.join(wt, demodir, os.environ.get("DEMO_NAME", "zz_seeded_demo_test.go")))
     rc_c, out_c = sh(democmd, wt)
-    os.remove(os.path.join(wt, demodir, "zz_seeded_demo_test.go"))
+    os.remove(os.path.join(wt, demodir, os.environ.get("DEMO_NAME", "zz_seeded_demo_test.go")))
     # apply
     rc, out = sh(f"git apply {src}/patch.diff", wt)
     assert rc == 0, "patch does not apply: " + out
     rc_a1, out_a1 = sh("go build ./... && go test -vet=off -count=1 ./...", wt)
     rc_a2, out_a2 = sh("go test -vet=off -count=1 ./...", os.path.join(wt, "tests"))
-    shutil.copy(os.path.join(src, demo), os.path.join(wt, demodir, "zz_seeded_demo_test.go"))
+    shutil.copy(os.path.join(src, demo), os.path.join(wt, demodir, os.environ.get("DEMO_NAME", "zz_seeded_demo_test.go")))
     rc_b, out_b = sh(democmd, wt)
     res.update({"suite_with_patch_passes": rc_a1 == 0 and rc_a2 == 0, "demo_fails_with_patch": rc_b != 0, "demo_passes_without_patch": rc_c == 0,
                 "demo_cmd": democmd, "demo_dir": demodir})
